@@ -255,7 +255,9 @@ class Gen:
         if rng.random() < 0.3:
             spec['result'] = self.next_id('v')
         elif rng.random() < 0.12:
-            spec['result'] = rng.choice([0, '', False, [], 0.0])     # falsy results
+            spec['result'] = rng.choice([0, '', False, [], 0.0,      # falsy results
+                                         # exception instances as plain results
+                                         {'exception': 'value'}, {'exception': 'cancelled'}])
         spec['steps'] = self.steps(depth + 1)
         if rng.random() < 0.06:
             spec['cancel_at_once'] = True
